@@ -1,8 +1,20 @@
 //! Server / runtime / TLS checks: L2 stepped accept loop, L3 in-thread worker, L4 end-to-end.
+//!
+//! `--cfg verif_nohooks` (set by ./check only when the instrumented build of actix-server does not
+//! compile against the tree under test) leaves out everything that needs the hooks: the stepped
+//! layers L2/L3 and accept-error injection. What remains uses public API only.
+pub mod kinds;
+#[cfg(not(verif_nohooks))]
 pub mod l2;
+#[cfg(not(verif_nohooks))]
 pub mod l2props;
+#[cfg(not(verif_nohooks))]
 pub mod l3;
 pub mod l4;
+#[cfg(not(verif_nohooks))]
+pub mod props;
+#[cfg(verif_nohooks)]
+#[path = "props_nohooks.rs"]
 pub mod props;
 pub mod rt;
 pub mod sig;
